@@ -28,9 +28,12 @@ THAT cap, and the candidates against the generated alignments (sample, mapping q
 import contextlib, io, json, os, shutil
 
 from harness.gen import c07_reads as G
+from harness.gen import c07_deep as D
 
 RULE = ("read sets whose reads cover >= 2 strictly increasing variant positions (intervals with holes, duplicates, "
-        "equal scores), caps k in 1..23, with/without preferred sources and bridging; plus malformed sets (a read with "
+        "equal scores), caps k in 1..23, with/without preferred sources and bridging; deep pile-ups (few read types with "
+        "multiplicities around the cap) for caps 24..600 around the limits of narrow counters, caps far above any depth (2^15 … 10^30), "
+        "operation sequences on the coverage monitor up to depth 70000; plus malformed sets (a read with "
         "< 2 variants). A case is non-trivial if at least one read is rejected by the coverage test (selected != all "
         "reads) and at least one is selected; distinct = distinct (reads, k, bridging, preferred) tuple. Pipeline cases: "
         "distinct (seed-derived) simulated scenarios in which at least one sample had reads discarded by the selection; option "
@@ -90,6 +93,8 @@ def run_impl(case):
             sel = readselection(rs, case["k"], preferred_arg(case), case["bridging"])
     except ValueError:
         return "ValueError"
+    except Exception as e:          # e.g. OverflowError of a cap that a narrowed representation cannot hold
+        return "raised:%s: %s" % (type(e).__name__, str(e)[:120])
     return sorted(int(i) for i in sel)
 
 
@@ -156,35 +161,44 @@ class Lib:
         self.ctx = ctx
         self.batch = []   # (requests, callback)
 
-    def check(self, case, enumerate_ties, tag):
+    def check(self, case, enumerate_ties, tag, wrap=None):
+        """`wrap`: the (compact) case to report instead of {"lib": case}"""
         ctx = self.ctx
         impl = run_impl(case)
         reads, k = case["reads"], case["k"]
+        rep = wrap if wrap is not None else {"lib": case}
         has_pref = any(r[2] for r in reads)
         ctx.evaluated()
         ctx.dist("n_reads", len(reads) if len(reads) < 10 else (len(reads) // 10) * 10)
-        ctx.dist("k", k)
+        ctx.dist("k", k if k <= 23 else "24..255" if k < 256 else "256..600" if k <= 600 else "far above any depth")
         ctx.dist("kind", tag + ("+pref" if has_pref else "") + ("+bridging" if case["bridging"] else ""))
         short = any(len(r[0]) < 2 for r in reads)
         if short:
             if impl != "ValueError":
-                ctx.fail(f"read with < 2 variants accepted (result {impl})", {"lib": case}, key="short-read-accepted")
+                ctx.fail(f"read with < 2 variants accepted (result {impl})", rep, key="short-read-accepted")
+        elif isinstance(impl, str) and impl.startswith("raised:"):
+            ctx.fail(f"readselection with cap {k} on {len(reads)} valid reads {impl}", rep, key="exception")
+            impl = "ValueError"
         elif impl == "ValueError":
-            ctx.fail("ValueError although every read covers >= 2 variants", {"lib": case}, key="spurious-valueerror")
+            ctx.fail("ValueError although every read covers >= 2 variants", rep, key="spurious-valueerror")
         else:
             fails = oracle(reads, k, impl)
             for key, text in fails:
-                ctx.fail(f"readselection: {text}", {"lib": case}, key=key)
+                ctx.fail(f"readselection: {text}", rep, key=key)
             if 0 < len(impl) < len(reads):
                 ctx.nontrivial(case_key(case))
             ctx.dist("selected_fraction", round(len(impl) / max(1, len(reads)), 1))
-            ctx.sample({"case": case, "impl_selected": impl}, limit=3)
+            if wrap is None:
+                ctx.sample({"case": case, "impl_selected": impl}, limit=3)
+            else:
+                ctx.dist("deep_max_span_count", _bucket(max_span_count(reads)))
+                ctx.sample({"case": wrap, "n_reads": len(reads), "n_selected": len(impl)}, limit=3)
         reqs = [{"op": "c07.spec", "reads": model_reads(case), "k": k, "selected": impl if impl != "ValueError" else []}]
         if enumerate_ties:
             reqs.append({"op": "c07.outcomes", "reads": model_reads(case), "k": k, "bridging": case["bridging"], "fixed": True})
             if has_pref:
                 reqs.append({"op": "c07.outcomes", "reads": model_reads(case), "k": k, "bridging": case["bridging"], "fixed": False})
-        self.batch.append((reqs, case, impl, short))
+        self.batch.append((reqs, case, impl, short, rep))
         if len(self.batch) >= 200:
             self.flush()
 
@@ -195,7 +209,7 @@ class Lib:
         flat = [r for reqs, *_ in self.batch for r in reqs]
         answers = ctx.model.ask_many(flat)
         pos = 0
-        for reqs, case, impl, short in self.batch:
+        for reqs, case, impl, short, rep in self.batch:
             ans = answers[pos:pos + len(reqs)]
             pos += len(reqs)
             if impl != "ValueError" and not short:
@@ -205,7 +219,7 @@ class Lib:
                 pyflags = {"subset": not any(k == "subset" for k, _ in py), "cap": not any(k == "cap" for k, _ in py),
                            "maximal": not any(k in ("maximal", KEY_MAXIMAL_PREF) for k, _ in py)}
                 if pyflags["subset"] and lean != pyflags:
-                    ctx.disagree("c07.spec", {"lib": case}, pyflags, lean)
+                    ctx.disagree("c07.spec", rep, pyflags, lean)
             if len(reqs) > 1:
                 fixed_out = ans[1]["outcomes"]
                 asis_out = ans[2]["outcomes"] if len(reqs) > 2 else fixed_out
@@ -216,8 +230,103 @@ class Lib:
                     ctx.dist("preferred_model_variant", "both" if in_fixed and in_asis else "repaired" if in_fixed
                              else "as-is(F9)" if in_asis else "neither")
                 if not (in_fixed or in_asis):
-                    ctx.disagree("c07.outcomes", {"lib": case}, impl, {"repaired": fixed_out, "as_is": asis_out})
+                    ctx.disagree("c07.outcomes", rep, impl, {"repaired": fixed_out, "as_is": asis_out})
         self.batch.clear()
+
+
+def max_span_count(reads):
+    """the deepest pile-up of the INPUT: the largest number of reads spanning one variant"""
+    positions = sorted({p for r in reads for p in r[0]})
+    return max(sum(1 for r in reads if spans(r, p)) for p in positions)
+
+
+def _bucket(n):
+    for lim in (23, 127, 255, 256, 511, 65535):
+        if n <= lim:
+            return "<=%d" % lim
+    return ">65535"
+
+
+def do_deep(lib, case, tag):
+    """a compact deep-pile-up case: judged by the same predicates as every library case"""
+    lib.check(D.expand(case["deep"]), False, tag, wrap=case)
+
+
+def mon_oracle(mon):
+    """the meaning of the anchored state `CovMonitor.coverage`: number of add_read calls whose range contains the index;
+    computed arithmetically (times x range), not by replaying the calls"""
+    cnt = [0] * mon["length"]
+    out = []
+    for op in mon["ops"]:
+        if op[0] == "add":
+            for i in range(op[1], op[2]):
+                cnt[i] += op[3]
+        else:
+            out.append(max(cnt[op[1]:op[2]]))
+    return out
+
+
+def do_mon(ctx, case, mon_reqs):
+    """operation sequence on the coverage monitor itself.  A tree without this class (or with another interface) is not
+    judged here: the stream is then skipped with an observation; readselection is judged by the deep stream anyway."""
+    mon = case["mon"]
+    try:
+        from whatshap.coverage import CovMonitor
+        m = CovMonitor(mon["length"])
+        m.add_read, m.max_coverage_in_range
+    except Exception as e:
+        ctx.observe("whatshap.coverage.CovMonitor not usable as (length) / add_read / max_coverage_in_range: %s" % str(e)[:80])
+        return
+    got = []
+    try:
+        for op in mon["ops"]:
+            if op[0] == "add":
+                for _ in range(op[3]):
+                    m.add_read(op[1], op[2])
+            else:
+                v = m.max_coverage_in_range(op[1], op[2])
+                got.append(int(v) if v == int(v) else float(v))
+    except Exception as e:
+        ctx.evaluated()
+        ctx.fail(f"coverage monitor raised {type(e).__name__}: {str(e)[:100]} on valid ranges", case, key="covmonitor-exception")
+        return
+    ctx.evaluated()
+    want = mon_oracle(mon)
+    depth = max(want) if want else 0
+    ctx.dist("mon_depth", _bucket(depth))
+    if depth > 23:
+        ctx.nontrivial("mon:" + json.dumps(mon, separators=(",", ":")))
+    if got != want:
+        j = next(i for i in range(len(want)) if got[i] != want[i])
+        q = [op for op in mon["ops"] if op[0] == "max"][j]
+        ctx.fail(f"coverage monitor: max_coverage_in_range({q[1]}, {q[2]}) = {got[j]} after add_read calls that put {want[j]} reads "
+                 f"over a variant in that range: a cap k with {got[j]} < k <= {want[j]} is not enforced", case, key="covmonitor-count")
+    mon_reqs.append(({"op": "c07.covmon", "length": mon["length"], "ops": mon["ops"]}, case, got))
+
+
+def flush_mon(ctx, mon_reqs):
+    if not mon_reqs:
+        return
+    answers = ctx.model.ask_many([r for r, _, _ in mon_reqs])
+    for (req, case, got), ans in zip(mon_reqs, answers):
+        if ans != got:
+            ctx.disagree("c07.covmon", case, got, ans)
+        ctx.validated()
+    mon_reqs.clear()
+
+
+def run_deep_stream(ctx, lib):
+    """caps above the CLI limit: deep pile-ups around narrow-counter limits, caps far above any depth, the monitor itself"""
+    rng = ctx.rng
+    mon_reqs = []
+    for i in range((70 if ctx.quick else 500) * ctx.scale):
+        do_deep(lib, D.deep_case(rng, big=(i % 12 == 11)), "deep")
+    for _ in range((300 if ctx.quick else 3000) * ctx.scale):
+        lib.check(D.huge_cap_case(rng), False, "cap-far-above-depth")
+    lib.flush()
+    for i in range((80 if ctx.quick else 600) * ctx.scale):
+        do_mon(ctx, D.mon_case(rng, deep=(i % 5 == 4)), mon_reqs)
+    flush_mon(ctx, mon_reqs)
 
 
 def shrink_lib_failure(case, key):
@@ -864,6 +973,11 @@ def run(ctx):
             do_stage(ctx, stage_reqs, {"stage": dict(case["trace_stage"], pref_none=False)}, "trace"); flush_stage(ctx, stage_reqs)
         elif "pipe" in case:
             run_pipe_scenario(ctx, case, stage_reqs, share_reqs); flush_stage(ctx, stage_reqs); flush_share(ctx, share_reqs)
+        elif "deep" in case:
+            do_deep(lib, case, "corpus-deep")
+        elif "mon" in case:
+            mr = []
+            do_mon(ctx, case, mr); flush_mon(ctx, mr)
         elif "opts" in case:
             parse_opts_case(ctx, case, share_reqs)
             run_opts_case(ctx, case, stage_reqs, share_reqs); flush_stage(ctx, stage_reqs); flush_share(ctx, share_reqs)
@@ -884,7 +998,12 @@ def run(ctx):
         run_opts_stream(ctx, stage_reqs, share_reqs)
         shutil.rmtree(ctx.workdir(), ignore_errors=True)
         return
+    if os.environ.get("C07_ONLY") == "deep":      # development knob: only the round-10 streams
+        run_deep_stream(ctx, lib)
+        shutil.rmtree(ctx.workdir(), ignore_errors=True)
+        return
     n_before = len(ctx.fails)
+    run_deep_stream(ctx, lib)
     n_small = (5000 if ctx.quick else 40000) * ctx.scale
     for _ in range(n_small):
         lib.check(G.small_case(rng, 8 if ctx.quick else 9), True, "small")
